@@ -156,5 +156,55 @@ pub mod scc {
                 !old(self)@.contains_key(k) ==> r is Ok && final(self)@ == old(self)@.insert(k, v),
                 old(self)@.contains_key(k) ==> r is Err && final(self)@ == old(self)@,
         { unimplemented!() }
+        /// scc: first occupied entry of a traversal that visits every entry exactly once (in an order of scc's choosing)
+        #[verifier::external_body]
+        pub fn begin_async(&mut self) -> (r: Option<OccupiedEntry<'_, K, V>>)
+            ensures
+                r is None ==> old(self)@.dom() =~= Set::<K>::empty() && *final(self) == *old(self),
+                r matches Some(e) ==> *e.map == *old(self) && *final(e.map) == *final(self) && e.idx@ == 0 && e.wf(),
+        { unimplemented!() }
+    }
+    /// `order` enumerates the key set `dom` without repetition
+    pub open spec fn enumerates<K>(order: Seq<K>, dom: Set<K>) -> bool {
+        order.no_duplicates() && forall|k: K| dom.contains(k) <==> order.contains(k)
+    }
+    /// scc::hash_map::OccupiedEntry during a `begin_async` / `next_async` traversal: a cursor that holds the map
+    /// (exclusively, like the real entry holds its bucket lock), the traversal order scc chose (ghost) and the
+    /// position in it.  What the code does to the entry through DerefMut is a change of the map at that key; when the
+    /// traversal ends (`next_async` returns None, or the entry is dropped) the map is what the entries left behind.
+    pub struct OccupiedEntry<'a, K, V> { pub map: &'a mut HashMap<K, V>, pub order: Ghost<Seq<K>>, pub idx: Ghost<int> }
+    impl<'a, K, V> OccupiedEntry<'a, K, V> {
+        pub open spec fn wf(&self) -> bool {
+            enumerates(self.order@, self.map@.dom()) && 0 <= self.idx@ < self.order@.len()
+        }
+        pub open spec fn k(&self) -> K { self.order@[self.idx@] }
+        pub open spec fn val(&self) -> V { self.map@[self.k()] }
+        #[verifier::external_body]
+        pub fn key(&self) -> (r: &K)
+            ensures self.wf() ==> *r == self.k(),
+        { unimplemented!() }
+        #[verifier::external_body]
+        pub fn next_async(self) -> (r: Option<OccupiedEntry<'a, K, V>>)
+            requires self.wf(),
+            ensures
+                r matches Some(n) ==> *n.map == *old(self.map) && *final(n.map) == *final(self.map) && n.order == self.order && n.idx@ == self.idx@ + 1 && n.wf(),
+                r is None ==> *final(self.map) == *old(self.map) && self.idx@ + 1 == self.order@.len(),
+        { unimplemented!() }
+    }
+    impl<'a, K, V> core::ops::Deref for OccupiedEntry<'a, K, V> {
+        type Target = V;
+        #[verifier::external_body]
+        fn deref(&self) -> (r: &V)
+            ensures self.wf() ==> *r == self.val(),
+        { unimplemented!() }
+    }
+    impl<'a, K, V> core::ops::DerefMut for OccupiedEntry<'a, K, V> {
+        #[verifier::external_body]
+        fn deref_mut(&mut self) -> (r: &mut V)
+            ensures old(self).wf() ==> *r == old(self).val()
+                && final(self).order == old(self).order && final(self).idx == old(self).idx
+                && final(self).map@ == old(self).map@.insert(old(self).k(), *final(r))
+                && *final(final(self).map) == *final(old(self).map),
+        { unimplemented!() }
     }
 }
